@@ -18,7 +18,8 @@
 (***************************************************************************)
 EXTENDS EFCorpus, Json
 
-CONSTANT Tier
+CONSTANT Tier,
+         Seed      \* >= 1: shifts which part of a sampled family is taken (1 = the default sample)
 
 VARIABLE row
 vars == <<row>>
@@ -116,7 +117,7 @@ Next ==
   /\ \/ /\ row.k = "mm0"
         /\ \/ \E b \in 1..NN, f \in {"min", "max"} : row' = CallRow("minmax", f, <<Nums[row.a], Nums[b]>>)
            \/ \E b \in 1..NN, c \in 1..NN :
-                /\ (Tier = "thorough" \/ (row.a + 2 * b + 3 * c) % 3 = 0)
+                /\ (Tier = "thorough" \/ (row.a + 2 * b + 3 * c + Seed - 1) % 3 = 0)
                 /\ row' = CallRow("between", "between", <<Nums[row.a], Nums[b], Nums[c]>>)
      \/ /\ row.k = "sj0"
         /\ \E d \in 1..Len(SepsB) :
@@ -136,7 +137,7 @@ Next ==
            \/ \E a \in 1..NAny : row' = CallRow("arity", row.name, <<AnyV[a]>>)
            \/ \E a \in 1..NAny, b \in 1..NAny : row' = CallRow("arity", row.name, <<AnyV[a], AnyV[b]>>)
            \/ \E a \in 1..NAny, b \in 1..NAny, c \in 1..NAny :
-                /\ (Tier = "thorough" \/ (a + b + c) % 3 = 0)
+                /\ (Tier = "thorough" \/ (a + b + c + Seed - 1) % 3 = 0)
                 /\ row' = CallRow("arity", row.name, <<AnyV[a], AnyV[b], AnyV[c]>>)
            \/ \E a \in 1..NAny : row' = CallRow("arity", row.name, <<AnyV[a], AnyV[1], AnyV[3], AnyV[4]>>)
            \/ /\ Tier = "thorough"
